@@ -10,12 +10,12 @@ cd /verif
 # the matrix runs with a frozen copy of the checker, so that work on the checker can go on meanwhile
 cp bin/ddcheck $O/ddcheck.bin; export DDCHECK_BIN=$O/ddcheck.bin
 rm -rf $O/verif; mkdir -p $O/verif; cp -r rules known_findings.json $O/verif/; export DDCHECK_VERIF=$O/verif
-{ ls seeded/*/patch.diff mutants/regress/*.diff mutants/benign/*.diff mutants/benign2/*.diff mutants/benign3/*.diff mutants/benign4/*.diff mutants/benign5/*.diff mutants/preserving/*.diff mutants/variants/*.diff; } > $O/list
+{ ls seeded/*/patch.diff mutants/regress/*.diff mutants/benign/*.diff mutants/benign2/*.diff mutants/benign3/*.diff mutants/benign4/*.diff mutants/benign5/*.diff mutants/benign6/*.diff mutants/preserving/*.diff mutants/variants/*.diff; } > $O/list
 cat $O/list | xargs -P ${FM_JOBS:-6} -I{} sh -c 'n=$(echo {} | tr "/" "_"); MUT_LINES=40 tools/allcheck.sh {} > '$O'/$n.txt 2>&1'
 echo "== missed (own property silent):"
 for f in $O/seeded_*.txt; do p=$(basename $f | sed 's/seeded_\(C[0-9]*\)-.*/\1/'); grep -q "alarms=.*$p(" $f || echo "  $(basename $f)"; done
 for f in $O/mutants_regress_*.txt; do c=$(basename $f | sed 's/.*revert-\([0-9a-f]*\).*/\1/'); p=$(jq -r --arg c "$c" '.[] | select(.commit==$c) | .property' known_findings.json | head -1); grep -q "alarms=.*$p(" $f || echo "  $(basename $f) ($p)"; done
 for f in $O/mutants_variants_*.txt; do p=$(basename $f | sed 's/.*_v[0-9]*-\(C[0-9]*\)-.*/\1/'); grep -q "alarms=.*$p(" $f || echo "  $(basename $f) ($p)"; done
 echo "== false alarms on behaviour-preserving patches:"
-grep -L "alarms=none" $O/mutants_benign_*.txt $O/mutants_benign2_*.txt $O/mutants_benign3_*.txt $O/mutants_benign4_*.txt $O/mutants_benign5_*.txt $O/mutants_preserving_*.txt 2>/dev/null | while read f; do grep "^ALL" $f; done
-echo "== totals:"; echo "  seeded+regress+variants: $(ls $O/seeded_*.txt $O/mutants_regress_*.txt $O/mutants_variants_*.txt | wc -l)  preserving: $(ls $O/mutants_benign_*.txt $O/mutants_benign2_*.txt $O/mutants_benign3_*.txt $O/mutants_benign4_*.txt $O/mutants_benign5_*.txt $O/mutants_preserving_*.txt | wc -l)"
+grep -L "alarms=none" $O/mutants_benign_*.txt $O/mutants_benign2_*.txt $O/mutants_benign3_*.txt $O/mutants_benign4_*.txt $O/mutants_benign5_*.txt $O/mutants_benign6_*.txt $O/mutants_preserving_*.txt 2>/dev/null | while read f; do grep "^ALL" $f; done
+echo "== totals:"; echo "  seeded+regress+variants: $(ls $O/seeded_*.txt $O/mutants_regress_*.txt $O/mutants_variants_*.txt | wc -l)  preserving: $(ls $O/mutants_benign_*.txt $O/mutants_benign2_*.txt $O/mutants_benign3_*.txt $O/mutants_benign4_*.txt $O/mutants_benign5_*.txt $O/mutants_benign6_*.txt $O/mutants_preserving_*.txt | wc -l)"
